@@ -43,7 +43,9 @@ func init() {
 
 func runC02(c *fw.Ctx, idx int) {
 	cfg := configuration.New()
-	in := gen.Stream(c.Rng, cteStreamOpts(c))
+	o := cteStreamOpts(c)
+	o.WideCustomTypes = true // CTE carries 64-bit custom type codes (only the CBE decoder stops at 32 bits)
+	in := gen.Stream(c.Rng, o)
 	c.Note("stream %s", ev.LogString(in))
 	a, rej, why := throughRules(in, cfg)
 	if rej >= 0 {
